@@ -559,6 +559,12 @@ pub fn decode(bytes: &[u8]) -> Case {
         }
         items.extend(units[*i].0.iter().cloned());
     }
+    // the first top-level word may also stand in front of everything: it is not part of any block
+    // (blocks start at their lead) and stays the first word
+    if !tail_items.is_empty() && u.chance(70) {
+        let first = tail_items.remove(0);
+        items.insert(0, first);
+    }
     items.extend(tail_items);
 
     let group_value = match wrap {
